@@ -405,6 +405,16 @@ def compare(c, cs, out):
         c.hit("path/extra variables or extra inputs present")
     if any(len(set(col)) < len(col) for col in zip(*inst["pvals"])) and inst["E"] > 1:
         c.hit("parameter coincidence between members")
+    for j in range(inst["nci"]):
+        st, grid = list(inst["cin"][0][j]["times"]), list(inst["ts"])
+        used = any(f == ["c", j] for eq in inst["eqs"] for _c, facs in eq["t"] for f in facs)
+        if st == grid:
+            c.hit("constant input stamps/the grid")
+        elif st[0] == grid[0] and st[-1] == grid[-1]:
+            c.hit("constant input stamps/own, same first and last stamp, %s count%s"
+                  % ("same" if len(st) == len(grid) else "other", " (in the residual)" if used else ""))
+        else:
+            c.hit("constant input stamps/own, other end points")
     c.sample({"kind": inst["kind"], "sizes": [inst["ns"], inst["na"], inst["nc"], inst["nci"], inst["npar"]],
               "E": inst["E"], "ts": inst["ts"], "theta": inst["theta"], "rows": cs.R, "N": cs.N,
               "eqs": inst["eqs"][:2]})
@@ -762,14 +772,17 @@ def run_batch(c, insts, rng, solve=False):
 def run(c):
     c.rule = (
         "random synthetic DAEs (0-3 states [thorough: up to 8], algebraics, 0-3 controls, 0-3 constant inputs on their "
-        "own stamps with the three interpolation modes and series that do not cover the horizon, 0-4 parameters some "
+        "own stamps (the grid itself; own stamps inside the horizon with the same first / last stamp as the grid and "
+        "the same or another count, e.g. equidistant on a non-equidistant grid; wider windows; series that do not "
+        "cover the horizon) with the three interpolation modes, 0-4 parameters some "
         "declared dynamic; sparse dyadic polynomial residuals (affine; x*p, x*c, x*t; nonlinear x^2, x*u, x*der), "
         "optional initial equations, optional complete histories, optional path/extra variables and extra inputs that "
         "are not part of the DAE), grids of 1-6 [12] non-equidistant steps (rarely a single stamp), t0 in {0, 3, -2.5}, "
         "theta in {0, 1/4, 1/2, 3/4, 1, 0.3}, E in 1..4 with forced coincidences between members and forced 0/1 "
         "values, nominals 2^-10..1e4 (powers of two and decimals); streams: main, variables on a coarser grid of their "
         "own, second transcribe() of the same object with changed dynamic parameters, history probe (initial "
-        "derivatives of algebraics/controls observed through the t0 instance of a path constraint), real solves.  "
+        "derivatives of algebraics/controls observed through the t0 instance of a path constraint), constant inputs "
+        "forced into the residual on own stamps that share only count and end points with the grid, real solves.  "
         "distinct = (kind, sizes, E, #stamps, theta, t0, complete/probe comparison, own grids, initial equations) tuples"
     )
     c.assumptions = [
@@ -788,9 +801,10 @@ def run(c):
         "dynamic parameters only",
         "ModelicaMixin (how F, parameters, inputs and nominals are obtained from a .mo file) is covered by C14/C13, not here",
     ]
-    from .translate_c01 import gen_colloc_kernels
+    from .translate_c01 import gen_colloc_kernels, gen_colloc_plumbing
 
-    c.prove(extra=gen_colloc_kernels(c))  # + kernels of transcribe() translated from the source
+    # + kernels and plumbing of transcribe() (and reduce_matvec) translated from the source
+    c.prove(extra=gen_colloc_kernels(c) + gen_colloc_plumbing(c))
     rng = c.rng
     run_batch(c, [dict(x) for x in CORPUS], rng)
     n_main = c.n(60, 500)
@@ -830,12 +844,30 @@ def run(c):
         if inst["na"] + inst["nc"] == 0:
             continue
         hist.append(S.add_history_probe(rng, inst))
+    # constant inputs on their OWN stamps sharing only the count and the end points with the (non-equidistant)
+    # grid, the input forced into the residual: the rows must see the series interpolated AT the collocation times
+    cown = []
+    while len(cown) < c.n(8, 60):
+        inst = S.gen_instance(rng, kind=rng.choice(["affine", "nonlinear"]))
+        if inst["nci"] == 0 or not inst["eqs"] or len(inst["ts"]) < 3:
+            continue
+        j = rng.randrange(inst["nci"])
+        times = S.own_stamps_same_ends(rng, inst["ts"])
+        if len(cown) % 2 == 0 and len(times) != len(inst["ts"]):
+            continue
+        cols = list(zip(*[S.gen_values(rng, inst["E"], lambda: S.dy(rng)) for _ in times]))
+        if all(len(set(col)) == 1 for col in cols):
+            continue  # a series that is constant in time cannot show where it is evaluated
+        for m in range(inst["E"]):
+            inst["cin"][m][j] = {"times": times, "values": list(cols[m])}
+        inst["eqs"][0]["t"].append([S.dy(rng), [["c", j]]])
+        cown.append(inst)
     mo = [MO.gen(rng, rng.choice(sorted(MO.MODELS))) for _ in range(c.n(3, 12))]
     sol = [S.gen_instance(rng, kind="solve") for _ in range(n_solve)]
     for inst in sol[: n_solve // 3]:
         S.add_own_times(rng, inst)
     # batches keep the driver input small
-    allinst = insts + own + hist + mo + single
+    allinst = insts + own + hist + cown + mo + single
     for k in range(0, len(allinst), 40):
         run_batch(c, allinst[k:k + 40], rng)
     run_batch(c, sol, rng, solve=True)
@@ -846,9 +878,10 @@ def run(c):
 
 
 def replay(c, rp):
-    from .translate_c01 import gen_colloc_kernels
+    from .translate_c01 import gen_colloc_kernels, gen_colloc_plumbing
 
-    c.prove(extra=gen_colloc_kernels(c))  # + kernels of transcribe() translated from the source
+    # + kernels and plumbing of transcribe() (and reduce_matvec) translated from the source
+    c.prove(extra=gen_colloc_kernels(c) + gen_colloc_plumbing(c))
     insts = []
     for f in rp.get("failures", []) + rp.get("correspondence_disagreements", []) + rp.get("disagreements", []):
         if f and isinstance(f.get("case"), dict) and "eqs" in f["case"]:
